@@ -3,6 +3,7 @@ import builtins
 import functools
 import random
 
+import common
 from common import Report, proof_stage, coq_eval_files, parse_nat_list
 from gencalc import drive
 import asyncstdlib as a
@@ -122,8 +123,12 @@ def make_cached(form, maxsize, typed, kind):
     return state, body, deco_async, deco_sync
 
 
+FALSY = {"on": False}
+
+
 def build(form, maxsize, typed, kind, flavour):
     state, body, deco_async, deco_sync = make_cached(form, maxsize, typed, kind)
+    falsy = FALSY["on"]
     inst = [Inst(100), Inst(101)]
     if flavour == "async":
         if kind == "function":
@@ -133,6 +138,9 @@ def build(form, maxsize, typed, kind, flavour):
             target = lambda i: f  # noqa
         else:
             class C:
+                if falsy:
+                    def __len__(self):      # an instance that is falsy (an empty container)
+                        return 0
                 if kind == "method":
                     @deco_async()
                     async def m(self, *args, **kw):
@@ -157,6 +165,9 @@ def build(form, maxsize, typed, kind, flavour):
             target = lambda i: f  # noqa
         else:
             class C:
+                if falsy:
+                    def __len__(self):
+                        return 0
                 if kind == "method":
                     @deco_sync()
                     def m(self, *args, **kw):
@@ -239,7 +250,7 @@ def run(tier, seed):
     rep = Report("C10", tier, seed)
     proofs_ok = proof_stage(rep, "C10")
     rng = random.Random(seed)
-    n = 1500 if tier == "quick" else 30000
+    n = 1500 * common.scale(rep) if tier == "quick" else 30000
     texts, fails_n = [], 0
     dist = {}
     for i in range(n):
@@ -249,6 +260,7 @@ def run(tier, seed):
         kind = rng.choice(["function", "function", "method", "classmethod", "staticmethod"])
         ops = gen_history(rng, tier)
         which = [rng.randrange(2) for _ in ops]
+        FALSY["on"] = rng.random() < 0.25
         eff_max = {"bare": 128, "call_default": 128, "cache": None}.get(form, maxsize)
         eff_typed = typed if form in ("args", "call_default") else False
         dist[(form, kind)] = dist.get((form, kind), 0) + 1
